@@ -26,7 +26,7 @@ Answers   == {"right", "wrong1", "empty"}
 Getters   == {"nil", "present"}
 PinInq    == {"needpin", "other"}
 KeyIdCfg  == {"unset", "match", "nomatch"}
-ReadKeys  == {"rsa", "ecc", "garbage", "err"}
+ReadKeys  == {"rsa", "ecc", "garbage", "truncated", "err"}    \* "truncated": the key s-expression cut short (at every offset, harness side)
 SignKinds == {"ok", "needpin", "needpin-badpin", "err", "other-inquiry"}
 Tries0    == {1, 3}
 
@@ -131,6 +131,7 @@ GetKey ==
           CASE k.readkey = "err" -> tr' = Append(pre, S("ERR", "no-key")) /\ out' = Append(out, Out("getkey", "readkey-failed")) /\ pc' = "done"
             [] k.readkey = "rsa" -> tr' = pre \o <<S("D", "pubkey-rsa"), S("OK", "")>> /\ out' = Append(out, Out("getkey", "ok")) /\ pc' = "sign"
             [] k.readkey = "ecc" -> tr' = pre \o <<S("D", "pubkey-ecc"), S("OK", "")>> /\ out' = Append(out, Out("getkey", "unsupported")) /\ pc' = "done"
+            [] k.readkey = "truncated" -> tr' = pre \o <<S("D", "pubkey-truncated"), S("OK", "")>> /\ out' = Append(out, Out("getkey", "invalid-key")) /\ pc' = "done"
             [] OTHER -> tr' = pre \o <<S("D", "pubkey-garbage"), S("OK", "")>> /\ out' = Append(out, Out("getkey", "invalid-key")) /\ pc' = "done"
   /\ UNCHANGED <<k, asked, cur, pin, tries, verified, nsign>>
 
